@@ -4,7 +4,7 @@
 (* (Grp) and every recorded return value is compared with the set formulas  *)
 (* of StabSem.  Pivot choice, row order of standby rows and destabilizer     *)
 (* phases are not compared.                                                  *)
-EXTENDS StabSem, Clifford, GaussMat, TraceBase, FiniteSets
+EXTENDS Tableau, Clifford, GaussMat, TraceBase, FiniteSets
 
 TRows(t) == DecRows(t.rows)
 TOK(t)  == /\ \A j \in 1..Len(t.rows) : WellFormed(t.rows[j], Len(t.rows[j]) - 1)
@@ -33,6 +33,13 @@ MeasEntryOK(S0, e) ==
        /\ ("again" \in DOMAIN e) => (e.again.out = e.out /\ e.again.l2p = 0 /\ TGrp(e.again.post) = sem.S)
 MeasureOK == (Rec.op = "measure1" /\ Has("entries")) =>
     LET S0 == TGrp(Rec.pre) IN \A j \in 1..Len(Rec.entries) : MeasEntryOK(S0, Rec.entries[j])
+\* L2 conformance (model drift, never a verdict): the transcribed algorithm of Tableau.tla, run with the coins
+\* that produce the recorded outcomes, yields the recorded post-tableau bit for bit (all 2n rows and phases)
+Drift_Measure == (Rec.op = "measure1" /\ Has("entries")) =>
+    \A j \in 1..Len(Rec.entries) :
+        LET e == Rec.entries[j]
+            m == ImplMeasureList(TRows(Rec.pre), Rec.pre.r, DecL(e.obs), e.out, Len(e.obs))
+        IN m.rows = TRows(e.post) /\ m.r = e.post.r /\ e.l2p = 0 - m.nund
 \* every outcome vector of non-zero probability was seen over the coin schedules tried, and nothing else
 PossibleOuts(S0, obs) == {o \in [1..Len(obs) -> 0..1] : SemMeasureList(S0, obs, o, Len(obs)).ok}
 BranchesOK == (Rec.op = "measure1" /\ Has("branches")) =>
